@@ -76,6 +76,13 @@ def rule_wctx(prog, em):
         dom_roots = {r_order.prov_root(em.child_prov(c)) for c in doms if em.child_prov(c)}
         if not ({('Binary', 1), ('Binary', 2)} <= dom_roots):
             problems.append('the write is not preceded by the evaluation of both operands on every path (dominating sites: %s)' % sorted(x for x in dom_roots if x))
+        else:
+            # ... in the order of `x op e`: the target is read before the right side runs (a right side that re-binds x
+            # must not be seen by the read)
+            c1 = [c for c in doms if em.child_prov(c) and r_order.prov_root(em.child_prov(c)) == ('Binary', 1)]
+            c2 = [c for c in doms if em.child_prov(c) and r_order.prov_root(em.child_prov(c)) == ('Binary', 2)]
+            if not any(all(x.bb != y.bb and b.dominates(x.bb, y.bb) for y in c2) for x in c1):
+                problems.append('the right side is evaluated before the target is read: `x op= e` then differs from `x op e` whenever e itself re-binds x')
         hs = [h for h in em.handler_sites(b) if b.dominates(h.bb, w.bb)]
         if not hs:
             problems.append('the write is not preceded by the handler call')
@@ -286,16 +293,103 @@ def rule_ctx_store(prog, em):
         else:
             obs.append(ok('CTXSTORE', key, 'Context::value looks the name parameter up once; absent -> Ok(None); variable -> the stored value', b.where()))
     # Reference nodes read their own name
+    n_reads = 0
     for b in em.bodies + [prog.by_id[i] for i in em.reach if i not in [x.id for x in em.bodies]]:
         for c in b.live_calls:
             if c.ruid and prog.by_id[c.ruid].name == 'context::Context::value':
                 p = em.prov_of_operand(b, c.args[1])
                 key = 'CTXSTORE|refname|%s' % b.name
+                n_reads += 1
                 if p is not None and r_order.prov_root(p) == ('Reference', 0):
                     obs.append(ok('CTXSTORE', key, 'a Reference node reads the context under its own name', c.where()))
                 else:
                     obs.append(bad('CTXSTORE', key, 'Context::value is asked for something other than the Reference node\'s own name (%s)' % r_order.prov_str(p), c.where(), body=b.name))
+            elif c.ruid and c.term['dest']['ty'].startswith('std::option::Option<') and 'context::ContextValue' in c.term['dest']['ty'] and len(c.args) >= 2:
+                # the evaluator matches the context entry itself (`match ctx.get(name) { .. }`) for a Reference node
+                p = em.prov_of_operand(b, c.args[1])
+                if p is None or r_order.prov_root(p) != ('Reference', 0):
+                    continue
+                n_reads += 1
+                key = 'CTXSTORE|refread|%s' % b.name
+                w = _absent_path_problem(prog, b, c)
+                if w:
+                    obs.append(bad('CTXSTORE', key, 'reading a Reference node: ' + w, c.where(), body=b.name, bb=c.bb))
+                else:
+                    obs.append(ok('CTXSTORE', key, 'a Reference node looks its own name up; when the name is absent the only outcome is Ok(None), and nothing is called or consulted on the way', c.where()))
+    if cv and not any(o.status == 'violated' and o.key == 'CTXSTORE|value' for o in obs):
+        b = cv[0]
+        lookups = [c for c in b.live_calls if c.term['dest']['ty'].startswith('std::option::Option<') and 'context::ContextValue' in c.term['dest']['ty']]
+        if len(lookups) == 1:
+            w = _absent_path_problem(prog, b, lookups[0])
+            if w:
+                obs.append(bad('CTXSTORE', 'CTXSTORE|value-absent', 'Context::value: ' + w, b.where(), body=b.name))
+            else:
+                obs.append(ok('CTXSTORE', 'CTXSTORE|value-absent', 'Context::value: when the name is absent the only outcome is Ok(None), and nothing is called or consulted on the way', b.where()))
+    obs.append(floor('CTXSTORE', 'reference-read-sites', n_reads, 1, 'a Reference node must read the context somewhere in the evaluator'))
     return obs
+
+
+def _absent_path_problem(prog, b, lk):
+    """walk from the lookup along the `None` edges of every switch on the lookup result's discriminant (the name is
+    absent): the only value returned there is Ok(Value::None), and no callback / registry (static) is touched"""
+    sw = set()
+    for bb in sorted(b.live_blocks):
+        t = b.blocks[bb]['term']
+        if t['k'] != 'switch':
+            continue
+        o = single_origin(trace_operand(b, t['discr'], through_calls=set()))
+        if o is None or o.kind != 'discr' or o.data[2]['pl']['p']:
+            continue
+        oo = single_origin(trace_local(b, o.data[2]['pl']['l'], (), through_calls=set()))
+        if oo is not None and oo.kind == 'callres' and oo.data.bb == lk.bb and not oo.proj:
+            sw.add(bb)
+    if not sw:
+        return 'the lookup result is not matched on here (absent / variable / function): the absent case cannot be followed'
+    seen = set()
+    st = [lk.term.get('target')]
+    while st:
+        x = st.pop()
+        if x is None or x in seen:
+            continue
+        seen.add(x)
+        if x in sw:
+            t = b.blocks[x]['term']
+            nxt = [tb for v, tb in t['targets'] if v == 0] or [t['otherwise']]
+            st += nxt
+        else:
+            t = b.blocks[x]['term']
+            if t['k'] == 'call':
+                st.append(t.get('target'))          # normal return only
+            else:
+                st += [y for y in b.succ[x] if not b.blocks[y].get('cleanup')]
+    import r_parse
+    rets = 0
+    for x in sorted(seen):
+        blk = b.blocks[x]
+        for st_ in blk['stmts']:
+            if st_['k'] == 'assign' and st_['pl']['l'] == 0:
+                rv = st_['rv']
+                if st_['pl']['p'] or not (rv['k'] == 'agg' and rv.get('variant') == 'Ok' and _is_value_none(b, rv['ops'][0])):
+                    return 'an absent name yields something other than Ok(None)'
+        t = blk['term']
+        if t['k'] == 'return':
+            rets += 1
+        if t['k'] == 'call' and x != lk.bb:
+            c = Call(b, x, t)
+            if t['dest']['l'] == 0:
+                return 'an absent name yields the result of a call (%s) instead of Ok(None)' % (c.rdef or c.callee)
+            if prog.is_callback(c):
+                return 'a callback is invoked although the name is absent'
+            g = prog.by_id.get(c.ruid) if c.ruid else None
+            if g is not None:
+                for bid in prog.reach([g.id]):
+                    if any(prog.is_callback(c2) for c2 in prog.by_id[bid].live_calls):
+                        return 'for an absent name %s is called, which can invoke a handler: an unbound name no longer simply reads as None' % g.name
+                if r_parse._statics_reached(prog, g.id):
+                    return 'for an absent name %s is called, which consults a process-global table: an unbound name that happens to be registered there no longer reads as None' % g.name
+    if not rets:
+        return 'no return on the absent-name path'
+    return None
 
 
 def r_order_root_local(b, op):
